@@ -9,7 +9,7 @@ use crate::problems::{base, reflect, warp, Base, Prob, Warp};
 use crate::regress;
 use crate::report::{Report, Violation};
 use crate::run::{mname, run, run_lowlevel, Cfg, Tol};
-use crate::tableau::{extract, orders, residual, Forest};
+use crate::tableau::{extract, extract_second_step, orders, residual, Forest};
 use ivp::prelude::*;
 use serde_json::{json, Value};
 
@@ -25,14 +25,35 @@ pub fn run_check(replay: Option<Value>) -> i32 {
     let mut samples = vec![];
     for m in RK_METHODS {
         let (_, q, _) = orders(m);
-        for sign in [1.0, -1.0] {
-            let ex = match extract(m, sign) {
+        for (sign, second) in [(1.0, false), (-1.0, false), (1.0, true), (-1.0, true)] {
+            if second && m == Method::RADAU {
+                continue;
+            }
+            let ex = match if second { extract_second_step(m, sign, false) } else { extract(m, sign) } {
                 Ok(e) => e,
                 Err(e) => {
-                    rep.machinery_errors.push(format!("extraction failed for {}: {}", mname(m), e));
+                    if second {
+                        let key = format!("secondstep:{}:{}", mname(m), sign);
+                        rep.violations.push(Violation::new(&key, "second-step-extraction", format!("{}: dense weights of the shortened second step cannot be read off: {}", mname(m), e), json!({"key": key})).with("method", mname(m)));
+                    } else {
+                        rep.machinery_errors.push(format!("extraction failed for {}: {}", mname(m), e));
+                    }
                     continue;
                 }
             };
+            // every stage (dense stages included) is evaluated at the abscissa its row of A implies
+            for i in 0..ex.s {
+                let rs: f64 = ex.a[i].iter().sum();
+                rep.evaluations += 1;
+                if (rs - ex.c[i]).abs() > 1e-13 * (1.0 + rs.abs()) {
+                    let key = format!("stagetime:{}:{}:{}:{}", mname(m), sign, second, i);
+                    rep.violations.push(
+                        Violation::new(&key, "stage-abscissa", format!("{} ({} step, h sign {}): stage {} is evaluated at x + {:e} h but its row of A sums to {:e}", mname(m), if second { "second" } else { "first" }, sign, i + 1, ex.c[i], rs), json!({"key": key}))
+                            .with("method", mname(m)),
+                    );
+                }
+            }
+            let sign = if second { sign * 2.0 } else { sign };
             let phi = forest.phis(&ex.a);
             for (ti_, th) in ex.thetas.iter().enumerate() {
                 let w = &ex.btheta[ti_];
@@ -66,7 +87,7 @@ pub fn run_check(replay: Option<Value>) -> i32 {
             if worst < 1e-9 {
                 rep.machinery_errors.push(format!("{}: dense conditions of order {} hold as well at theta=1/2 — extraction suspicious", mname(m), q + 1));
             }
-            if sign > 0.0 {
+            if sign == 1.0 {
                 samples.push(json!({"method": mname(m), "theta": 0.5, "b(theta)": w, "dense_order_claimed": q}));
             }
         }
